@@ -27,6 +27,15 @@ var VerifRoot = func() string {
 	return "/verif"
 }()
 
+// OutRoot is where evidence/ and replays/ are written (VERIF_OUT; default: VerifRoot). Trial runs against scratch
+// copies of the repository use it so that /verif/evidence always describes /repo itself.
+var OutRoot = func() string {
+	if v := os.Getenv("VERIF_OUT"); v != "" {
+		return v
+	}
+	return VerifRoot
+}()
+
 type Violation struct {
 	Property string   `json:"property"`
 	Clause   string   `json:"clause"`
@@ -259,7 +268,7 @@ func (r *Run) Finish() int {
 		}
 		newV++
 		h := sha1.Sum([]byte(v.Clause + "|" + v.Site + "|" + strings.Join(v.Witness, "+")))
-		dir := filepath.Join(VerifRoot, "replays", r.Prop)
+		dir := filepath.Join(OutRoot, "replays", r.Prop)
 		_ = os.MkdirAll(dir, 0o755)
 		path := filepath.Join(dir, hex.EncodeToString(h[:6])+".json")
 		b, _ := json.MarshalIndent(v, "", " ")
@@ -333,22 +342,22 @@ func (r *Run) Finish() int {
 	if len(r.harnessErr) > 0 {
 		evd["harness_errors"] = r.harnessErr
 	}
-	_ = os.MkdirAll(filepath.Join(VerifRoot, "evidence"), 0o755)
+	_ = os.MkdirAll(filepath.Join(OutRoot, "evidence"), 0o755)
 	b, _ := json.MarshalIndent(evd, "", " ")
-	if err := os.WriteFile(filepath.Join(VerifRoot, "evidence", r.Prop+".json"), b, 0o644); err != nil {
+	if err := os.WriteFile(filepath.Join(OutRoot, "evidence", r.Prop+".json"), b, 0o644); err != nil {
 		fmt.Fprintln(os.Stderr, "evidence:", err)
 		return 2
 	}
 	fmt.Printf("%s tier=%s evaluations=%d states=%d transitions=%d outcome_classes=%d exhaustive=%v bound=%q violations=%d known=%d wall=%.1fs\n",
 		r.Prop, r.Tier, r.Evaluations.Load(), states, trans, distinct, r.Exhaustive, r.Bound, newV, len(knownSeen), time.Since(r.start).Seconds())
-	if len(r.harnessErr) > 0 {
-		for _, e := range r.harnessErr {
-			fmt.Fprintln(os.Stderr, "HARNESS-ERROR:", e)
-		}
-		return 2
+	for _, e := range r.harnessErr {
+		fmt.Fprintln(os.Stderr, "HARNESS-ERROR:", e)
 	}
 	if newV > 0 {
-		return 1
+		return 1 // VIOLATION lines were printed; a part of the check that could not run does not hide them
+	}
+	if len(r.harnessErr) > 0 {
+		return 2
 	}
 	return 0
 }
